@@ -18,7 +18,7 @@ def b2f(b):
 
 
 F_POOL = [f2b(x) for x in (0.0, -0.0, 1.0, -1.0, 0.5, 1.5, -2.5, 3.0, 2.0 ** -10, 4096.0, 0.1, 100.25, -7.75,
-                            float("inf"), float("-inf"), 3.4028235e38, 1e-40)] + [2143289344, -4194304]
+                            float("inf"), float("-inf"), 3.4028235e38, 1e-40, 1e-8, -1e-8, 1.1754944e-38, 1e-7, 1.2e-7)] + [2143289344, -4194304, 1]
 I_POOL = [MININT, MININT + 1, -2, -1, 0, 1, 2, 3, 4, 5, 7, 10, 100, MAXINT - 1, MAXINT]
 NAMES = ["a", "b", "c", "foo", "x1"]
 
@@ -58,16 +58,20 @@ class Gen:
             return f2b(r.randint(-64, 64) / r.choice([1, 2, 4, 8, 16]))
         return r.randint(MININT, MAXINT)   # arbitrary bit pattern (includes NaNs, subnormals)
 
+    def _len(self, maxlen):
+        # mostly short vectors, sometimes long ones (length-dependent code paths)
+        return self.r.randint(0, maxlen) if self.r.random() < 0.85 else self.r.randint(maxlen, 4 * maxlen)
+
     def bvec(self, maxlen=6):
-        return [self.r.random() < 0.5 for _ in range(self.r.randint(0, maxlen))]
+        return [self.r.random() < 0.5 for _ in range(self._len(maxlen))]
 
     def ivec(self, maxlen=6):
         if self.r.random() < 0.3:      # stack-id vectors for LIST.*
             return [self.r.choice([1, 2, 3, 4, 5, 6, 9, 10, 11, 0, 13]) for _ in range(self.r.randint(0, 5))]
-        return [self.int() for _ in range(self.r.randint(0, maxlen))]
+        return [self.int() for _ in range(self._len(maxlen))]
 
     def fvec(self, maxlen=6):
-        return [self.float() for _ in range(self.r.randint(0, maxlen))]
+        return [self.float() for _ in range(self._len(maxlen))]
 
     def name(self):
         return self.r.choice(NAMES)
